@@ -106,6 +106,18 @@ func init() {
 		"ext4 File.Write, directory and inode encoders/decoders (see C19 for the codecs that are under contract)",
 		"Bitmap.FreeList beyond the bound of the bounded check; its use in allocateExtents",
 	}
+	propAssumptions["C14"] = []string{
+		"sources of nondeterminism considered: time.Now/Since/Until, math/rand, crypto/rand, uuid.New*/NewRandom, os.Getenv (only through the declared gate), range over a map; goroutine scheduling, pointer values and the host file system are not considered",
+		"timestamp.GetTime is the declared gate to the clock (effects boundary): proved to call time.Now only when SOURCE_DATE_EPOCH is empty or strconv.ParseInt rejects it",
+		"callees without contract are classified by a syntactic call-graph search (interface methods by name, function values by type); callees under contract by their own effect clauses",
+		"two executions with the same inputs and no nondeterminism source on any path produce the same bytes (determinism of Go code without such sources; not itself proved)",
+	}
+	propNotDecided["C14"] = []string{
+		"byte-identity of images as such (no two-run comparison); histories of operations beyond each operation being free of nondeterminism sources",
+		"independence from the start offset beyond the layout arguments of fat16/fat32 Create (fat12.Create and the geometry arithmetic are not pinned)",
+		"gpt Table.Write / toGPTBytes: random-freedom when every GUID is given (only initEntry, initTable and toPartitionArrayBytes carry that conditional clause); mbr Table.Write; 'rewriting a table read from disk changes nothing' beyond the non-empty disk GUID",
+		"fat32 writeBootSector/writeFsis/SetLabel (reached through function-valued hooks)",
+	}
 	propAssumptions["C12"] = []string{"partition.Read: GPT is probed before MBR (call-site assertions); filesystem probing in disk.GetFilesystem is not under contract"}
 	propNotDecided["C12"] = []string{"filesystem type recognition (disk.GetFilesystem and the per-filesystem Read acceptance tests)", "stale bytes of a previous filesystem", "labels and contents"}
 }
